@@ -265,6 +265,48 @@ let run_normalize st (view : string) (r : (n * n) option) : string =
     st.world <- w1;
     (match oc with Ok _ -> "ok" | Panicked -> "panic" | _ -> "na")
 
+(* ES / ESI / ER / TS / TSI / TR: the mutators of the read-only maps of a document type -- the extracted [step_ro] of
+   Model/DomReadOnly.v.  The names in notations() are not in the store: the words T<h>:<names> of the description
+   (one per document type handle) give the fact [declared] of the TS / TSI calls. *)
+let run_ro st (desc : string) (f : string array) (h : int -> (n * n) option) : string =
+  let fld k = if k < Array.length f then f.(k) else "" in
+  let notation_names (src : (n * n)) : n list list =
+    (* the document type [src] stands for (extracted [doctype_ref]), as a handle *)
+    let dt = (match doctype_ref st.world src with Some (d, id) -> find st (int_of_n d) id | None -> None) in
+    match dt with
+    | None -> []
+    | Some hd ->
+      let key = "T" ^ string_of_int hd in
+      List.fold_left (fun acc w -> match split ':' w with
+          | [k; l] when k = key -> if l = "~" then [] else List.map dec (split '.' l)
+          | _ -> acc) [] (split ';' desc) in
+  let m = if f.(0).[0] = 'E' then MEntities else MNotations in
+  let op : ro_op option =
+    match f.(0), h 1 with
+    | ("ER" | "TR"), Some r -> Some (MapRemoveNamedItem (m, r, dec (fld 2)))
+    | ("ES" | "TS" | "ESI" | "TSI"), Some r ->
+      (match h 2 with
+       | None -> None
+       | Some src ->
+         let byname = String.length f.(0) = 2 in
+         let names = if m = MNotations then notation_names src else [] in
+         let idx = (match int_of_string_opt (fld 3) with Some x when x >= 0 -> x | _ -> max_int) in
+         let declared = if byname then List.mem (dec (fld 3)) names else idx < List.length names in
+         let k = if byname then ByName (dec (fld 3)) else ByIndex (if idx = max_int then big_usize_max else n_of_int idx) in
+         Some (MapSetNamedItem (m, r, src, k, declared)))
+    | _ -> None in
+  match op with
+  | None -> "na"
+  | Some o ->
+    let (w1, oc) = step_ro st.world o in
+    st.world <- w1;
+    (match oc with
+     | XOk RUnit -> "ok" | XOk RNone -> "ok:~" | XOk (RNode _) -> "ok:item"
+     | XFailed XNoModificationAllowedErr -> "err:NoModificationAllowedErr"
+     | XFailed (XExc e) -> exc_name e
+     | XPanicked -> "panic"
+     | XNotApplicable -> "na")
+
 let () = register "dom" (fun words ->
   match words with
   | view :: _nd :: desc :: ops when String.length desc > 0 && desc.[0] = '@' ->
@@ -337,6 +379,7 @@ let () = register "dom" (fun words ->
              "x:" ^ (if merged then "1" else "0") ^ ":" ^ table_dump st (int_of_n d) facts merged
            | _ -> "na")
         | None when f.(0) = "NZ" -> run_normalize st view (h 1)
+        | None when List.mem f.(0) ["ES"; "ESI"; "ER"; "TS"; "TSI"; "TR"] -> run_ro st desc f h
         | None -> "na"
         | Some (Query _) -> "q"
         | Some o ->
